@@ -73,6 +73,8 @@ def ref_timetable(p, seq):
             retryable = False
         elif ro == 'sub' and (kind in ('unlisted', 'timeout') or not oc.get('sub')):
             retryable = False  # an instance of the BASE class is not an instance of the listed subclass
+        elif ro == 'oserr' and kind == 'unlisted':
+            retryable = False  # retry_on=(OSError, Listed): a cut-off attempt raises TimeoutError, which IS an OSError
         if not retryable or k == p['retries']:
             return starts, ('raise', k, kind), end
         t = end + p['wait'] * (p['backoff'] ** k)
@@ -84,7 +86,7 @@ def exec_retry(case) -> Result:
     p, seq, cancel_at = case['p'], case['seq'], case.get('cancel_at')
     loop = _loop(case.get('i', 0))
     calls, made = [], {}
-    retry_on = None if p['retry_on'] is None else ((Listed2,) if p['retry_on'] == 'sub' else (Listed,))
+    retry_on = None if p['retry_on'] is None else ((Listed2,) if p['retry_on'] == 'sub' else ((OSError, Listed) if p['retry_on'] == 'oserr' else (Listed,)))
 
     @retry(wait=p['wait'], retries=p['retries'], timeout=p['timeout'], retry_on=retry_on, backoff_factor=p['backoff'])
     async def fn():
@@ -194,11 +196,11 @@ class RetryFamily(Family):
         alphabet = ['ok', 'listed', 'unlisted', 'overrun']
         for retries in (0, 1, 2, 3):
             for (w, b, T) in grid:
-                for ro in (None, 'listed', 'sub'):
+                for ro in (None, 'listed', 'sub', 'oserr'):
                     p = {'retries': retries, 'wait': w, 'backoff': b, 'timeout': T, 'retry_on': ro}
                     for combo in itertools.product(alphabet, repeat=retries + 1):
                         # prefix-closed: skip sequences that differ only after the first terminal outcome
-                        term = next((k for k, c in enumerate(combo) if c == 'ok' or (ro == 'listed' and c in ('unlisted', 'overrun')) or (ro == 'sub' and (c in ('unlisted', 'overrun') or (c == 'listed' and k % 2 == 0)))), len(combo) - 1)
+                        term = next((k for k, c in enumerate(combo) if c == 'ok' or (ro == 'listed' and c in ('unlisted', 'overrun')) or (ro == 'sub' and (c in ('unlisted', 'overrun') or (c == 'listed' and k % 2 == 0))) or (ro == 'oserr' and c == 'unlisted')), len(combo) - 1)
                         if any(c != 'ok' for c in combo[term + 1:]):
                             continue
                         seq = [{'k': 'ok' if c == 'overrun' else c, 'd': (T + 1.0) if c == 'overrun' else (0.25 if (k + i) % 2 else 0.0), 'sub': (k % 2 == 1)} for k, c in enumerate(combo)]
@@ -209,7 +211,7 @@ class RetryFamily(Family):
         for j in range(n_rand):
             rng = random.Random(f'c19/{seed}/{j}')
             retries = rng.randint(0, 7)
-            p = {'retries': retries, 'wait': rng.choice([0.0, 0.1, 0.75, 3.0]), 'backoff': rng.choice([0.25, 0.5, 1.0, 1.5, 2.0, 3.0]), 'timeout': rng.choice([0.5, 1.0, 5.0]), 'retry_on': rng.choice([None, 'listed', 'sub'])}
+            p = {'retries': retries, 'wait': rng.choice([0.0, 0.1, 0.75, 3.0]), 'backoff': rng.choice([0.25, 0.5, 1.0, 1.5, 2.0, 3.0]), 'timeout': rng.choice([0.5, 1.0, 5.0]), 'retry_on': rng.choice([None, 'listed', 'sub', 'oserr'])}
             seq = []
             for k in range(retries + 1):
                 c = rng.choice(['ok', 'listed', 'listed', 'listed', 'unlisted', 'overrun'])
